@@ -23,6 +23,7 @@ var checks = map[string][]HarnessSpec{
 		{Name: "verifC05Ext", Pkg: ".", Labels: []string{"passed", "refused", "valid"}},
 		{Name: "verifC05Structured", Pkg: ".", Labels: []string{"passed", "valid"}},
 		{Name: "verifC05Later", Pkg: ".", Labels: []string{"later"}},
+		{Name: "verifC05SealedNoTLS13", Pkg: ".", Labels: []string{"no-tls13"}},
 	},
 	"C06": {
 		{Name: "verifC06History", Pkg: ".", Labels: []string{"setup", "retry-ok", "retry-abort", "done"}},
@@ -33,6 +34,7 @@ var checks = map[string][]HarnessSpec{
 		{Name: "verifC07WritePipe", Pkg: ".", Labels: []string{"written", "write-failed"}},
 		{Name: "verifC07WriteStep", Pkg: ".", Labels: []string{"step"}},
 		{Name: "verifC07LegalLengths", Pkg: ".", Labels: []string{"read", "write"}},
+		{Name: "verifC07EndToEnd", Pkg: ".", Labels: []string{"end-to-end"}},
 	},
 	"C08": {
 		{Name: "verifC08Raw", Pkg: ".", Labels: []string{"newconn-ok", "newconn-error", "reads-done"}},
@@ -42,6 +44,8 @@ var checks = map[string][]HarnessSpec{
 		{Name: "verifC08AroundECH", Pkg: ".", Labels: []string{"newconn-ok", "newconn-error"}},
 		{Name: "verifC10Stall", Pkg: ".", Labels: []string{"stall-returned"}},
 		{Name: "verifC08InnerRaw", Pkg: ".", Labels: []string{"inner-refused", "inner-ok"}},
+		{Name: "verifC08RetryExt", Pkg: ".", Labels: []string{"retry-refused"}},
+		{Name: "verifC08ServerHello", Pkg: ".", Labels: []string{"sh-refused", "sh-passed"}},
 	},
 	"C09": {
 		{Name: "verifC09KeySets", Pkg: ".", Labels: []string{"ran", "accepted", "passthrough"}},
